@@ -575,8 +575,9 @@ func (w *World) opDelete(op Op) *Resp {
 				}
 				w.x.viol([]string{"C03"}, "delete.status", "manifest present -> "+strconv.Itoa(r.Code)+note, fmt.Sprintf("DELETE of present manifest %s answered %d%s", d, r.Code, note))
 				if note != "" && r.Code == 404 {
+					// known family: the manifest is unreachable now but may come back (still in the child list): unsure from here on
 					mr.resyncOrphans()
-					w.deleteManifest(mr, d)
+					x.maybeGone = true
 					w.x.resync()
 					return r
 				}
@@ -934,7 +935,7 @@ func (w *World) opRefs(op Op) {
 	wantN := 0
 	for _, d := range must {
 		if !match(d) {
-			if _, listed := got[d]; !listed && unannounced != "" {
+			if _, listed := got[d]; !listed && unannounced != "" && mr.causeOf(d) == "" && !mr.respLost[subj] {
 				w.x.viol([]string{"C07"}, "referrers.filter-header", unannounced, fmt.Sprintf("referrers of %s with artifactType=%q: the %s carries no OCI-Filters-Applied header although it is filtered (%s with artifactType %q is left out)", subj, op.Filter, unannounced, d, mr.mans[d].artifactType()))
 				unannounced = ""
 			}
